@@ -5,7 +5,7 @@
 const fs = require('fs'), rl = require('readline');
 const names = ["href","protocol","username","password","host","hostname","port","pathname","search","hash"];
 const obs = u => names.map(n => u[n]);
-const buckets = new Map(); let n = 0, agree = 0, steps = 0;
+const buckets = new Map(); let n = 0, agree = 0, steps = 0, nq = 0;
 function cls(r){const h=(r.obs&&r.obs[1])||'';return ['http:','https:','ws:','wss:','ftp:'].includes(h)?'special':h==='file:'?'file':h?'nonspecial':'-';}
 function diff(kind, rec, detail) {
   kind = kind + ' | ' + cls(rec);
@@ -19,6 +19,21 @@ const known = (process.env.SKIP || '').split(',').filter(Boolean);
 (async () => {
   for await (const line of rl.createInterface({input: fs.createReadStream(process.argv[2])})) {
     if (!line) continue; const r = JSON.parse(line); n++;
+    if (r.kind === 'q') {
+      // (a leading '?' is removed by the URLSearchParams constructor, not by the parser: skipped. A maximal invalid
+      // UTF-8 subpart is ONE U+FFFD for the Encoding Standard's decoder and one per byte for the properties' reading
+      // of a Go string — "bytes that are not valid UTF-8 count as U+FFFD" —: runs of U+FFFD are collapsed on both sides.
+      // Code-unit and code-point order differ for a supplementary-plane character against U+E000..U+FFFF: C11 does not
+      // judge those sorts, and they are reported in a bucket of their own here.)
+      const q = r.query || ''; if (q.startsWith('?')) continue;
+      const col = l => JSON.stringify(l).replace(/\uFFFD+/g, '\uFFFD');
+      const sp = new URLSearchParams(q); const got = [...sp]; nq++;
+      if (col(got) !== col(r.pairs || [])) { diff('urlencoded parse', r, JSON.stringify({query: q, model: r.pairs, node: got})); continue; }
+      if (col(got) === JSON.stringify(r.pairs || []) && sp.toString() !== (r.ser || '')) { diff('urlencoded serialize', r, JSON.stringify({query: q, model: r.ser, node: sp.toString()})); continue; }
+      sp.sort(); const sorted = [...sp];
+      if (col(sorted) !== col(r.sorted || [])) { const amb = /[\uD800-\uDBFF]/.test(q + JSON.stringify(got)) && /[\uE000-\uFFFF]/.test(JSON.stringify(got)); diff('urlencoded sort' + (amb ? ' (supplementary vs U+E000..U+FFFF: code-unit order, not judged by C11)' : ''), r, JSON.stringify({query: q, model: r.sorted, node: sorted})); continue; }
+      agree++; continue;
+    }
     let u = null;
     try { u = r.has_base ? new URL(r.input, r.base) : new URL(r.input); } catch (e) {}
     if ((u !== null) !== r.ok) { diff(r.ok ? 'parse: model ok, node fails' : 'parse: model fails, node ok', r, JSON.stringify({input: r.input, base: r.has_base ? r.base : undefined, model: r.obs && r.obs[0], node: u && u.href})); continue; }
@@ -35,6 +50,6 @@ const known = (process.env.SKIP || '').split(',').filter(Boolean);
     }
     if (!bad) agree++;
   }
-  console.log(`${n} cases, ${agree} in full agreement, ${steps} setter steps compared`);
+  console.log(`${n} cases, ${agree} in full agreement, ${steps} setter steps compared, ${nq} form-urlencoded strings`);
   for (const [k, b] of [...buckets].sort((a, b) => b[1].count - a[1].count)) { console.log(`\n== ${k}: ${b.count}`); for (const s of b.samples) console.log('   ' + s.slice(0, 400)); }
 })();
